@@ -30,6 +30,8 @@ structure StmtResult where
   cols : List String := []
   rows : List (List Value) := []
   affected : Nat := 0
+  /-- see `St.tieSensitive` -/
+  tieSensitive : Bool := false
   deriving Inhabited
 
 def freshSnapshot (w : World) (xid : Nat) : Snapshot :=
@@ -163,7 +165,7 @@ def execTop (w : World) (sid : Nat) (stmt : Stmt) (retry : Bool) (now : Option I
         -- an advisory unlock may have released what another session waits for
         let w2 := if w2.advisory.length < wBefore.advisory.length then w2.clearWaiters sid else w2
         let w2 := if implicit then commitTx w2 sess2 else w2
-        (w2, .ok { cols := r.rel.cols, rows := r.rel.rows, affected := r.affected })
+        (w2, .ok { cols := r.rel.cols, rows := r.rel.rows, affected := r.affected, tieSensitive := st'.tieSensitive })
       | .error (.blocked on bx bs) =>
         -- no effect; remember the snapshot for the retry and the wait-for edge
         let holder := if bs != 0 then bs else
